@@ -538,48 +538,64 @@ fn check<P: Prop>(tier: Tier) -> i32 {
             continue;
         }
         examined += 1;
-        let v = &vs[0];
-        let is_kill = v.viol.check == "liveness";
-        let base = format!("{}-{}-{}", id, seed, v.run);
-        let raw_path = dir.join(format!("{}.raw.json", base));
-        let rf = ReplayFile {
-            property: id.to_string(),
-            check: v.viol.check.clone(),
-            class: v.viol.class.clone(),
-            signature: v.viol.full_sig(),
-            key: v.viol.key.clone(),
-            detail: v.viol.detail.clone(),
-            verif_seed: seed,
-            run: v.run,
-            tier: tier.name().into(),
-            minimised: false,
-            reexecutions: 0,
-            case_size_before: case_size(&v.case),
-            case_size_after: case_size(&v.case),
-            case: v.case.clone(),
-        };
-        std::fs::create_dir_all(&dir).unwrap();
-        std::fs::write(&raw_path, serde_json::to_vec_pretty(&rf).unwrap()).unwrap();
-        let final_path = replay_dir.join(format!("{}.json", base));
-        let mut have_min = false;
-        if !is_kill {
-            let st = Command::new(self_exe()).arg("minimise").arg(id).arg(&raw_path).arg(&final_path).status().unwrap();
-            have_min = st.code() == Some(0);
-        }
-        if !have_min {
-            std::fs::copy(&raw_path, &final_path).unwrap();
-        }
-        let (ok, how) = replay_outer(&final_path);
-        if !ok {
-            // fall back to the un-minimised case before declaring a harness defect
+        // try the members of the group in run order until one reproduces in a fresh process (a
+        // violation that depends on uncontrolled state, e.g. real malloc recycling under the `pass`
+        // fill policy, may not; another member found under a controlled policy will)
+        let mut confirmed: Option<PathBuf> = None;
+        let mut last_err = String::new();
+        for v in vs.iter().take(6) {
+            let is_kill = v.viol.check == "liveness";
+            let base = format!("{}-{}-{}", id, seed, v.run);
+            let raw_path = dir.join(format!("{}.raw.json", base));
+            let rf = ReplayFile {
+                property: id.to_string(),
+                check: v.viol.check.clone(),
+                class: v.viol.class.clone(),
+                signature: v.viol.full_sig(),
+                key: v.viol.key.clone(),
+                detail: v.viol.detail.clone(),
+                verif_seed: seed,
+                run: v.run,
+                tier: tier.name().into(),
+                minimised: false,
+                reexecutions: 0,
+                case_size_before: case_size(&v.case),
+                case_size_after: case_size(&v.case),
+                case: v.case.clone(),
+            };
+            std::fs::create_dir_all(&dir).unwrap();
+            std::fs::write(&raw_path, serde_json::to_vec_pretty(&rf).unwrap()).unwrap();
+            let final_path = replay_dir.join(format!("{}.json", base));
+            let mut have_min = false;
+            if !is_kill {
+                let st = Command::new(self_exe()).arg("minimise").arg(id).arg(&raw_path).arg(&final_path).status().unwrap();
+                have_min = st.code() == Some(0);
+            }
+            if !have_min {
+                std::fs::copy(&raw_path, &final_path).unwrap();
+            }
+            let (ok, how) = replay_outer(&final_path);
+            if ok {
+                confirmed = Some(final_path);
+                break;
+            }
+            // fall back to the un-minimised case before giving up on this member
             std::fs::copy(&raw_path, &final_path).unwrap();
             let (ok2, how2) = replay_outer(&final_path);
-            if !ok2 {
-                harness_errors.push(format!("violation {} (run {}) does not reproduce in a fresh process: {} / {}", sig, v.run, how, how2));
-                let _ = std::fs::remove_file(&final_path);
+            if ok2 {
+                confirmed = Some(final_path);
+                break;
+            }
+            last_err = format!("run {}: {} / {}", v.run, how, how2);
+            let _ = std::fs::remove_file(&final_path);
+        }
+        let final_path = match confirmed {
+            Some(p) => p,
+            None => {
+                harness_errors.push(format!("violation {} does not reproduce in a fresh process ({} member(s) tried; last: {})", sig, vs.len().min(6), last_err));
                 continue;
             }
-        }
+        };
         let frf: ReplayFile = serde_json::from_slice(&std::fs::read(&final_path).unwrap()).unwrap();
         if let Some(k) = kf.findings.iter().find(|k| matches_known(k, id, &frf)) {
             let e = known_matched.entry(k.id.clone()).or_insert((k.what.clone(), 0));
